@@ -1,8 +1,220 @@
+import Martian.Refactor
 import Driver.Util
 
-/-! Line-protocol handler for property C19 (stub: replaced when the model exists). -/
-namespace Driver.C19
+/-! Line-protocol handler for property C19.
 
-def handle (_op : String) (_args : List String) : Option String := none
+`C19.apply <prog> <op> <callable> <param> <new> <calls 0|1> <tops a,b|.>`
+→ the edited program in the same encoding (see harness/c19_enc.go):
+
+    prog     := callable* top
+    callable := ( S name flags ( in* ) ( out* ) ( retainedparam* ) )
+              | ( P name flags ( in* ) ( out* ) ( call* ) ( bind* ) ( ref* ) )
+    call     := ( id decId flags ( bind* ) ( bind* ) )
+    bind     := ( name exp )
+    exp      := ( L hex ) | ( S id path* ) | ( C id path* ) | ( A exp* )
+              | ( M ( hexkey exp )* ) | ( T ( hexkey exp )* ) | ( X exp )
+    top      := @ call | -
+-/
+namespace Driver.C19
+open Martian.Refactor
+
+abbrev P (α : Type) := List String → Option (α × List String)
+
+def unDash (s : String) : String := if s == "-" then "" else s
+def dash (s : String) : String := if s == "" then "-" else s
+
+def expect (t : String) : P Unit
+  | x :: r => if x == t then some ((), r) else none
+  | [] => none
+
+/-- tokens up to the closing paren of the current list (atoms only) -/
+def atomsUntilClose : List String → List String → Option (List String × List String)
+  | ")" :: r, acc => some (acc.reverse, r)
+  | "(" :: _, _ => none
+  | x :: r, acc => atomsUntilClose r (x :: acc)
+  | [], _ => none
+
+mutual
+  partial def pExp : P Exp
+    | "(" :: "L" :: h :: ")" :: r => some (.lit h, r)
+    | "(" :: "S" :: id :: r => do
+      let (path, r) ← atomsUntilClose r []
+      some (.ref ⟨RefKind.self, unDash id, path⟩, r)
+    | "(" :: "C" :: id :: r => do
+      let (path, r) ← atomsUntilClose r []
+      some (.ref ⟨RefKind.call, unDash id, path⟩, r)
+    | "(" :: "X" :: r => do
+      let (e, r) ← pExp r
+      let (_, r) ← expect ")" r
+      some (.split e, r)
+    | "(" :: "A" :: r => do
+      let (es, r) ← pElems r
+      some (.arr es, r)
+    | "(" :: "M" :: r => do
+      let (es, r) ← pEntries r
+      some (.map false es, r)
+    | "(" :: "T" :: r => do
+      let (es, r) ← pEntries r
+      some (.map true es, r)
+    | _ => none
+  partial def pElems : P Exp
+    | ")" :: r => some (.nil, r)
+    | ts => do
+      let (h, r) ← pExp ts
+      let (t, r) ← pElems r
+      some (.cons "" h t, r)
+  partial def pEntries : P Exp
+    | ")" :: r => some (.nil, r)
+    | "(" :: k :: r => do
+      let (h, r) ← pExp r
+      let (_, r) ← expect ")" r
+      let (t, r) ← pEntries r
+      some (.cons k h t, r)
+    | _ => none
+end
+
+partial def pMany {α : Type} (one : P α) : List String → List α → Option (List α × List String)
+  | ")" :: r, acc => some (acc.reverse, r)
+  | ts, acc => do
+    let (x, r) ← one ts
+    pMany one r (x :: acc)
+
+def pBind : P Bind
+  | "(" :: name :: r => do
+    let (e, r) ← pExp r
+    let (_, r) ← expect ")" r
+    some (⟨name, e⟩, r)
+  | _ => none
+
+def pList {α : Type} (one : P α) : P (List α)
+  | "(" :: r => pMany one r []
+  | _ => none
+
+def pAtomList : P (List String)
+  | "(" :: r => atomsUntilClose r []
+  | _ => none
+
+def pRef : P Ref := fun ts => do
+  let (e, r) ← pExp ts
+  match e with
+  | .ref x => some (x, r)
+  | _ => none
+
+def pCall : P Call
+  | "(" :: id :: dec :: flags :: r => do
+    let (binds, r) ← pList pBind r
+    let (mods, r) ← pList pBind r
+    let (_, r) ← expect ")" r
+    some (⟨id, dec, unDash flags, binds, mods⟩, r)
+  | _ => none
+
+def outOf (s : String) : String × Bool :=
+  if s.endsWith "!" then (String.ofList s.toList.dropLast, true) else (s, false)
+
+def pCallable : P Callable
+  | "(" :: "S" :: name :: flags :: r => do
+    let (ins, r) ← pAtomList r
+    let (outs, r) ← pAtomList r
+    let (ret, r) ← pAtomList r
+    let (_, r) ← expect ")" r
+    some ({ isPipe := false, name := name, keep := flags.toList.contains 'k', ins := ins,
+            outs := outs.map outOf, sretain := ret, calls := [], ret := [], retain := [] }, r)
+  | "(" :: "P" :: name :: flags :: r => do
+    let (ins, r) ← pAtomList r
+    let (outs, r) ← pAtomList r
+    let (calls, r) ← pList pCall r
+    let (ret, r) ← pList pBind r
+    let (retain, r) ← pList pRef r
+    let (_, r) ← expect ")" r
+    some ({ isPipe := true, name := name, keep := flags.toList.contains 'k', ins := ins,
+            outs := outs.map outOf, sretain := [], calls := calls, ret := ret, retain := retain }, r)
+  | _ => none
+
+partial def pProgram : List String → List Callable → Option Program
+  | ["-"], acc => some ⟨acc.reverse, none⟩
+  | ts, acc =>
+    match ts with
+    | "(" :: "S" :: _ | "(" :: "P" :: _ => do
+      let (c, r) ← pCallable ts
+      pProgram r (c :: acc)
+    | "@" :: ts => do
+      let (c, r) ← pCall ts
+      if r.isEmpty then some ⟨acc.reverse, some c⟩ else none
+    | _ => none
+
+/-! printer -/
+
+def join (xs : List String) : String := " ".intercalate xs
+
+def showRef (r : Ref) : String :=
+  join (["(", (match r.kind with | .self => "S" | .call => "C"), dash r.id] ++ r.path ++ [")"])
+
+mutual
+  partial def showExp : Exp → String
+    | .lit h => join ["(", "L", h, ")"]
+    | .ref r => showRef r
+    | .split e => join ["(", "X", showExp e, ")"]
+    | .arr es => join (["(", "A"] ++ showElems es ++ [")"])
+    | .map false es => join (["(", "M"] ++ showEntries es ++ [")"])
+    | .map true es => join (["(", "T"] ++ showEntries es ++ [")"])
+    | .nil => "?nil"
+    | .cons _ _ _ => "?cons"
+  partial def showElems : Exp → List String
+    | .cons _ h t => showExp h :: showElems t
+    | _ => []
+  partial def showEntries : Exp → List String
+    | .cons k h t => join ["(", k, showExp h, ")"] :: showEntries t
+    | _ => []
+end
+
+def showBind (b : Bind) : String := join ["(", b.name, showExp b.exp, ")"]
+
+def showList (xs : List String) : String := join (["("] ++ xs ++ [")"])
+
+def showCall (c : Call) : String :=
+  join ["(", c.id, c.decId, dash c.flags, showList (c.binds.map showBind), showList (c.mods.map showBind), ")"]
+
+def showCallable (c : Callable) : String :=
+  let flags := if c.keep then "k" else "-"
+  let outs := c.outs.map fun o => if o.2 then o.1 ++ "!" else o.1
+  if c.isPipe then
+    join ["(", "P", c.name, flags, showList c.ins, showList outs, showList (c.calls.map showCall),
+          showList (c.ret.map showBind), showList (c.retain.map showRef), ")"]
+  else
+    join ["(", "S", c.name, flags, showList c.ins, showList outs, showList c.sretain, ")"]
+
+def showProgram (p : Program) : String :=
+  join (p.callables.map showCallable ++ [match p.top with | some c => "@ " ++ showCall c | none => "-"])
+
+def handle (op : String) (args : List String) : Option String :=
+  match op, args with
+  | "ping", _ => some "pong"
+  | "apply", [prog, eop, callable, param, new, calls, tops] => do
+    let p ← pProgram (prog.splitOn " ") []
+    let tops := if tops == "." then [] else tops.splitOn ","
+    match eop with
+    | "renameCallable" => some (showProgram (renameCallable callable new p))
+    | "renameInput" => some (showProgram (renameInput callable param new p))
+    | "renameOutput" => some (showProgram (renameOutput callable param new p))
+    | "removeInput" => some (showProgram (removeInput callable param p))
+    | "removeUnused" => some (showProgram (removeUnused (calls == "1") tops p))
+    | "removeOutput" => some "unsupported"
+    | _ => none
+  | "thm", [prog, x, y, calls, tops] => do
+    -- instances of the property theorems on a concrete program (falsification test)
+    let p ← pProgram (prog.splitOn " ") []
+    let tops := if tops == "." then [] else tops.splitOn ","
+    let wf := WF p
+    let fresh := FreshFor x y p
+    let rt := decide (renameCallable y x (renameCallable x y p) = p)
+    let cg := decide (eraseIds (renameCallable x y p) = renameDec x y (eraseIds p))
+    let st := removeStep p (calls == "1") tops p
+    let dec := !st.2 || decide (measure st.1 < measure p)
+    let fix := !(removeStep p (calls == "1") tops (removeLoop p (calls == "1") tops (measure p + 1) p)).2
+    some (s!"wf={wf} fresh={fresh} rt={rt} cg={cg} dec={dec} fix={fix} found={(p.find? x).isSome}")
+  | "roundtrip", [prog] => do
+    let p ← pProgram (prog.splitOn " ") []
+    some (showProgram p)
+  | _, _ => none
 
 end Driver.C19
